@@ -1748,7 +1748,37 @@ func ruleC10BytesOfByteSlices(c *Ctx) {
 				same := func(a, b ssa.Value) bool { return a != nil && b != nil && (a == b || sharesSource(a, b)) }
 				var byteElem []ssa.Value
 				var eqPairs [][2]ssa.Value
+				isElemKindTest := func(bo *ssa.BinOp) ssa.Value { // V.Type().Elem().Kind() == Uint8: V
+					for _, pair := range [][2]ssa.Value{{bo.X, bo.Y}, {bo.Y, bo.X}} {
+						if k, isK := pair[1].(*ssa.Const); isK && k.Value != nil {
+							if kv, ok := constInt(k); ok && kv == int64(kUint8) {
+								if kc, ok := pair[0].(*ssa.Call); ok && kc.Call.IsInvoke() && kc.Call.Method.Name() == "Kind" {
+									if ec, ok := kc.Call.Value.(*ssa.Call); ok && ec.Call.IsInvoke() && ec.Call.Method.Name() == "Elem" {
+										return typeOf(ec.Call.Value)
+									}
+								}
+							}
+						}
+					}
+					return nil
+				}
 				for _, g := range guardsOf(call) {
+					// a package predicate that is exactly this test of its parameter: isByteSlice(v)
+					if pc, ok := g.Cond.(*ssa.Call); ok && g.Pol && len(pc.Call.Args) == 1 {
+						if h := pc.Call.StaticCallee(); h != nil && c.P.InPkg(h) && len(h.Params) == 1 {
+							exact := false
+							core.EachInstr(h, func(j ssa.Instruction) {
+								if ret, ok := j.(*ssa.Return); ok && len(ret.Results) == 1 {
+									if rb, ok := ret.Results[0].(*ssa.BinOp); ok && rb.Op == token.EQL && isElemKindTest(rb) == ssa.Value(h.Params[0]) {
+										exact = true
+									}
+								}
+							})
+							if exact {
+								byteElem = append(byteElem, pc.Call.Args[0])
+							}
+						}
+					}
 					bo, ok := g.Cond.(*ssa.BinOp)
 					if !ok || !((bo.Op == token.EQL && g.Pol) || (bo.Op == token.NEQ && !g.Pol)) {
 						continue
